@@ -1093,6 +1093,14 @@ func (s *Stream) decryptDataWithAAD(data []byte, frameHeader []byte) ([]byte, er
 		if len(data) < 16 {
 			return nil, fmt.Errorf("encrypted data too short to contain IV")
 		}
+		// The IV a peer announces is its own fresh random draw. A first frame that
+		// announces OUR base IV is one of our own frames played back at us: both
+		// directions use one key, and when nothing was exchanged in clear before
+		// the key was installed the first-frame AAD is the same in both directions,
+		// so without this check such a reflected frame would authenticate.
+		if bytes.Equal(data[:16], s.encryptIV[:]) {
+			return nil, fmt.Errorf("AES-GCM decryption failed: frame carries this endpoint's own IV")
+		}
 		// Extract IV from data
 		copy(s.decryptIV[:], data[:16])
 		offset = 16
